@@ -41,12 +41,15 @@ ADDENDA = {
  "C32": "Also decides that entry lookups on the token-to-identity paths hide recycled and tombstoned entries, and that every call of check_within_valid_time feeds the lower bound from valid_from and the upper from expire.",
  "C33": "Also decides that the privilege window of a re-issued token depends only on the current time and the policy's privilege_expiry() (other inputs only as a min() bound).",
  "C34": "Also decides that every write path, replication included, reloads key material, with a class-only condition on the replication path.",
+ "C35": "Also decides that every field of a parsed group policy is read from its own stored attribute.",
+ "C38": "Also decides that the scope maps, supplementary scope maps, claim map and origin lists of a loaded client are read from their own stored attributes.",
  "C40": "Also decides that the executed filter and the access-checked filter of LDAP search/compare events come from the same client filter.",
  "C42": "Also requires the request grammar to hand on the current nesting budget in every recursive alternative (no fresh restart).",
  "C43": "Also decides that the client drops its cached stream after any failed exchange, so a late reply cannot answer the next request.",
  "C44": "Also decides that resolver methods read the cached token only after taking the single-writer lock when they write a token back.",
  "C45": "Also decides that a successful offline authentication writes back the latest cached record, not the session snapshot.",
  "C48": "Also decides that an existing built-in entry can only be left as is through the assert-modify (no success shortcut).",
+ "C49": "Also decides that valid_from / expire / radius_secret of every parsed account struct are read from account_valid_from / account_expire / radius_secret.",
 }
 
 ids = [json.loads(l)["id"] for l in open(os.path.join(VERIF, "properties.jsonl"))]
